@@ -315,6 +315,20 @@ def _mk_native(zr, w, mode):
     return dt.datetime(*f, tzinfo=D.tzobj(zr))
 
 
+def _distinct_tz(op, za, zb, b):
+    """two endpoints at the same fixed offset: for every other such op the second endpoint carries an equal but DISTINCT
+    FixedTimezone object (what two parse() calls, a pickled endpoint or FixedTimezone(n) built twice give) — equal zones must be
+    treated as the same zone whichever object carries them"""
+    import zlib
+    if za != zb or za[0] != "f" or not isinstance(b, dt.datetime) or b.tzinfo is None or type(b.tzinfo).__name__ != "FixedTimezone":
+        return b
+    if zlib.crc32(("tzobj" + repr(op)).encode()) & 1:
+        return b
+    from pendulum.tz.timezone import FixedTimezone
+    return b.replace(tzinfo=FixedTimezone(int(za[1:]) // US)) if type(b) is dt.datetime else \
+        type(b)(b.year, b.month, b.day, b.hour, b.minute, b.second, b.microsecond, tzinfo=FixedTimezone(int(za[1:]) // US), fold=b.fold)
+
+
 def _pd8(r):
     return (r.years, r.months, r.days, r.hours, r.minutes, r.seconds, r.microseconds, r.total_days)
 
@@ -346,6 +360,7 @@ def impl(op, backend):
         _, mode, za, wa, zb, wb = op
         mode = _mode(op)
         a, b = _mk_native(za, wa, mode), _mk_native(zb, wb, mode)
+        b = _distinct_tz(op, za, zb, b)
         r = _pd8(_P["active"](a, b))
         out = "ok " + " ".join(str(x) for x in r)
         if backend == "rs":
@@ -355,6 +370,7 @@ def impl(op, backend):
         return out
     _, za, wa, fa, zb, wb, fb, ab = op
     a, b = _mk_val(za, wa, fa), _mk_val(zb, wb, fb)
+    b = _distinct_tz(op, za, zb, b)
     # history: the components must depend on the two values only, not on intervals built before in this process. For aware
     # DateTimes, every other op first builds the interval between the SAME two instants rendered in other zones (a different wall
     # clock decomposition), touching its components.
